@@ -2,6 +2,8 @@ package props
 
 import (
 	"bytes"
+	"crypto/ed25519"
+	"errors"
 	"fmt"
 	"strings"
 	"sync"
@@ -49,8 +51,59 @@ var c09Panels = []c09Panel{
 	{refdl.Block{Facts: []refdl.Atom{fOpRead, fResF}, Rules: []refdl.Rule{rAllowed}}, []refdl.Policy{allow(q(fAllowedF))}},
 }
 
+// c09Token builds authority + blocks, optionally with root key id 7.
+func c09Token(seed uint64, authority refdl.Block, blocks []refdl.Block, withID bool) (*biscuit.Biscuit, error) {
+	_, priv := hx.Keys(1)
+	var b biscuit.Builder
+	if withID {
+		b = biscuit.NewBuilder(priv, biscuit.WithRNG(hx.NewRNG(seed)), biscuit.WithRootKeyID(7))
+	} else {
+		b = biscuit.NewBuilder(priv, biscuit.WithRNG(hx.NewRNG(seed)))
+	}
+	if err := hx.FillBuilder(b, authority); err != nil {
+		return nil, err
+	}
+	tok, err := b.Build()
+	if err != nil {
+		return nil, err
+	}
+	for i, blk := range blocks {
+		bb := tok.CreateBlock()
+		if err := hx.FillBlock(bb, blk); err != nil {
+			return nil, err
+		}
+		tok, err = tok.Append(hx.NewRNG(seed+uint64(i)+1), bb.Build())
+		if err != nil {
+			return nil, err
+		}
+	}
+	return tok, nil
+}
+
 func c09Describe(tok *biscuit.Biscuit, rootOK, rootBad int) string {
 	var obs []string
+	// key selection by identifier: id 7 -> right key, default -> wrong key, and the reverse table
+	right, wrong := rootPub(rootOK), rootPub(rootBad)
+	for ti, src := range []biscuit.PublickKeyByIDProjection{
+		biscuit.WithRootPublicKeys(map[uint32]ed25519.PublicKey{7: right}, &wrong),
+		biscuit.WithRootPublicKeys(map[uint32]ed25519.PublicKey{7: wrong}, &right),
+		biscuit.WithRootPublicKeys(map[uint32]ed25519.PublicKey{8: right}, nil),
+	} {
+		_, err := tok.AuthorizerFor(src, hx.LongLimits)
+		switch {
+		case err == nil:
+			obs = append(obs, fmt.Sprintf("table%d:verified", ti))
+		case errors.Is(err, biscuit.ErrNoPublicKeyAvailable):
+			obs = append(obs, fmt.Sprintf("table%d:no-key", ti))
+		default:
+			obs = append(obs, fmt.Sprintf("table%d:rejected", ti))
+		}
+	}
+	if id := tok.RootKeyID(); id != nil {
+		obs = append(obs, fmt.Sprintf("keyid=%d", *id))
+	} else {
+		obs = append(obs, "keyid=absent")
+	}
 	for _, r := range []int{rootOK, rootBad} {
 		a, err := tok.AuthorizerFor(biscuit.WithSingularRootPublicKey(rootPub(r)), hx.LongLimits)
 		if err != nil {
@@ -83,7 +136,8 @@ func init() {
 				for _, ch := range name[1:] {
 					blocks = append(blocks, c09Contents[byte(ch)])
 				}
-				u, err := hx.Token(1, uint64(i)+10, c09Contents[name[0]], blocks)
+				withID := i%2 == 1 // every second token carries a root key id
+				u, err := c09Token(uint64(i)+10, c09Contents[name[0]], blocks, withID)
 				if err != nil {
 					w.Violate("C09:build-failed", name, err.Error(), "a token")
 					return
@@ -112,7 +166,12 @@ func init() {
 				w.Stats().States += 4
 				w.Stats().Transitions += 4
 				base := c09Describe(u, 1, 2)
-				for label, t := range map[string]*biscuit.Biscuit{"sealed": s, "unsealed-reloaded": u2, "sealed-reloaded": s2} {
+				type lt struct {
+					label string
+					t     *biscuit.Biscuit
+				}
+				for _, x := range []lt{{"sealed", s}, {"unsealed-reloaded", u2}, {"sealed-reloaded", s2}} {
+					label, t := x.label, x.t
 					if got := c09Describe(t, 1, 2); got != base {
 						w.Class("twin-differs")
 						w.Violate("C09:"+label+"-behaves-differently", "token "+name, got, base)
@@ -131,7 +190,8 @@ func init() {
 						return
 					}
 				}
-				for label, t := range map[string]*biscuit.Biscuit{"sealed": s, "sealed-reloaded": s2} {
+				for _, x := range []lt{{"sealed", s}, {"sealed-reloaded", s2}} {
+					label, t := x.label, x.t
 					bb := t.CreateBlock()
 					hx.FillBlock(bb, poolQ)
 					nt, err := t.Append(hx.NewRNG(5), bb.Build())
@@ -174,7 +234,7 @@ func init() {
 					}
 				}
 				c09Explore(c, sealed, full)
-			}}
+			}, ReplayCase: c01ReplayGeneric}
 			return []*sup.Space{twins, edits}
 		},
 	})
